@@ -36,10 +36,13 @@ def _name_of(e):
 
 
 class Scanner(ast.NodeVisitor):
-    def __init__(self, func, hints, src_lines, set_params=()):
+    def __init__(self, func, hints, src_lines, set_params=(), module_sets=()):
         self.func = func
         self.h = hints
-        self.types = {p: "set" for p in set_params}     # parameters that receive a set-typed argument at some call site in the module
+        # module-level names bound to a set (e.g. a table of reserved words), unless the function rebinds them;
+        # parameters that receive a set-typed argument at some call site in the module
+        self.types = {n: "set" for n in module_sets}
+        self.types.update({p: "set" for p in set_params})     # parameters that receive a set-typed argument at some call site in the module
         self.sites = []
         self.src = src_lines
         self.parents = {}
@@ -92,7 +95,7 @@ class Scanner(ast.NodeVisitor):
                 return True
             if f in self.h.set_returning:
                 return True
-            if f in ("union", "intersection", "difference", "copy") and isinstance(e.func, ast.Attribute) and self.is_set(e.func.value):
+            if f in ("union", "intersection", "difference", "symmetric_difference", "copy") and isinstance(e.func, ast.Attribute) and self.is_set(e.func.value):
                 return True
             if f == "get" and isinstance(e.func, ast.Attribute) and (_name_of(e.func.value) in self.h.containers_of_sets):
                 return True
@@ -236,6 +239,15 @@ def scan_module(path, hints, only_functions=None):
             elif isinstance(n, ast.ClassDef):
                 collect(n.body, prefix + n.name + ".")
     collect(tree.body, "")
+    # module-level names bound to sets (NAME = set(...) / frozenset(...) / {...} / set operations on such names)
+    module_sets = set()
+    probe = Scanner(ast.parse("def _(): pass").body[0], hints, lines)
+    for _round in range(2):
+        for n in tree.body:
+            if isinstance(n, ast.Assign) and len(n.targets) == 1 and isinstance(n.targets[0], ast.Name):
+                probe.types = {m: "set" for m in module_sets}
+                if probe.is_set(n.value):
+                    module_sets.add(n.targets[0].id)
     # set-typedness flows into same-module callees through arguments (two rounds: helper of a helper)
     set_params = {q: set() for q in funcs}
     by_short = {}
@@ -243,7 +255,7 @@ def scan_module(path, hints, only_functions=None):
         by_short.setdefault(q.split(".")[-1], []).append(q)
     for _ in range(2):
         for q, fn in funcs.items():
-            sc = Scanner(fn, hints, lines, set_params[q])
+            sc = Scanner(fn, hints, lines, set_params[q], module_sets)
             for c in ast.walk(fn):
                 if not isinstance(c, ast.Call):
                     continue
@@ -261,5 +273,5 @@ def scan_module(path, hints, only_functions=None):
                             set_params[tq].add(kw.arg)
     for q, fn in funcs.items():
         if only_functions is None or q in only_functions:
-            out[q] = Scanner(fn, hints, lines, set_params[q]).scan()
+            out[q] = Scanner(fn, hints, lines, set_params[q], module_sets).scan()
     return out
